@@ -29,6 +29,7 @@ type C10Case struct {
 	Depth  int      `json:"depth"`             // the call is made from this many frames deep
 	FreshG bool     `json:"fresh_g"`           // ... on a fresh goroutine (small stack)
 	NoPlan bool     `json:"no_plan,omitempty"` // set by the parent for the reference run
+	Arrays int      `json:"arrays,omitempty"`  // non-zero: also decode fully populated pointer arrays of many sizes into fresh destinations while a collector runs
 }
 
 func init() { register("C10", func() Case { return &C10Case{} }) }
@@ -65,6 +66,9 @@ func drawC10(t *rapid.T) Case {
 	c.Env = rapid.IntRange(0, len(c10Envs)-1).Draw(t, "env")
 	c.Depth = []int{0, 0, 10, 200, 2000}[rapid.IntRange(0, 4).Draw(t, "depth")]
 	c.FreshG = rapid.Bool().Draw(t, "freshg")
+	if rapid.IntRange(0, 3).Draw(t, "arrays") == 0 {
+		c.Arrays = rapid.IntRange(1, 1000).Draw(t, "arrayseed")
+	}
 	return c
 }
 
@@ -157,7 +161,11 @@ func (c *C10Case) Transcript() string {
 		if hits == 0 && !c.NoPlan {
 			hit = "NO-CALLBACK-RAN"
 		}
-		out = fmt.Sprintf("%s enc=%s back=%s", hit, enc, re)
+		arrays := ""
+		if c.Arrays != 0 {
+			arrays = "[" + c10Arrays(c.Arrays) + "] "
+		}
+		out = fmt.Sprintf("%s %senc=%s back=%s", hit, arrays, enc, re)
 	}
 	call := func() { c10Deep(c.Depth, run) }
 	if c.FreshG {
@@ -173,9 +181,70 @@ func (c *C10Case) Transcript() string {
 	return out
 }
 
+// c10Arrays decodes fully populated arrays of pointers (six sizes between 0.5 and 16 KiB, compiled first) into
+// fresh destinations that are all kept alive - the heap grows, so a destination's neighbour in its span has
+// usually never been allocated - while collections run back to back: generated code that hands the runtime an
+// address outside the destination object is caught in the act.
+var c10SizeClasses = []int{576, 640, 704, 768, 896, 1024, 1152, 1280, 1408, 1536, 1792, 2048, 2304, 2688, 3072, 3200, 3456, 4096, 4864, 5376, 6144, 6528, 6784, 6912, 8192, 9472, 9728, 10240, 10880, 12288, 13568, 14336, 16384, 18432, 19072, 20480, 21760, 24576, 27264, 28672, 32768}
+
+func c10Arrays(seed int) string {
+	type spec struct {
+		ty  reflect.Type
+		doc string
+		n   int
+	}
+	var specs []spec
+	for k := 0; k < 6; k++ {
+		// the element count is chosen so that array plus type header fills a size class of the Go allocator
+		// exactly: the address one past the array is then the start of the neighbouring slot
+		cls := c10SizeClasses[(seed+k*7)%len(c10SizeClasses)]
+		n := cls/8 - 1
+		elem, item := reflect.TypeOf((*int)(nil)), "7,"
+		if k%3 == 1 {
+			elem, item = reflect.TypeOf((*string)(nil)), `"s",`
+		}
+		sp := spec{ty: reflect.ArrayOf(n, elem), n: n, doc: "[" + strings.Repeat(item, n-1) + item[:len(item)-1] + "]"}
+		if err := sonic.UnmarshalString(sp.doc, reflect.New(sp.ty).Interface()); err != nil {
+			return fmt.Sprintf("arrays: [%d] error %v", n, err)
+		}
+		specs = append(specs, sp)
+	}
+	stop := make(chan struct{})
+	done := make(chan struct{})
+	go func() {
+		defer close(done)
+		for {
+			select {
+			case <-stop:
+				return
+			default:
+				runtime.GC()
+			}
+		}
+	}()
+	defer func() { close(stop); <-done }()
+	var keep []reflect.Value
+	for i := 0; i < 300; i++ {
+		sp := specs[i%len(specs)]
+		dst := reflect.New(sp.ty)
+		if err := sonic.UnmarshalString(sp.doc, dst.Interface()); err != nil {
+			return fmt.Sprintf("arrays: [%d] error %v", sp.n, err)
+		}
+		if dst.Elem().Index(0).IsNil() || dst.Elem().Index(sp.n-1).IsNil() {
+			return fmt.Sprintf("arrays: [%d] element left nil", sp.n)
+		}
+		keep = append(keep, dst)
+	}
+	runtime.KeepAlive(keep)
+	return "arrays ok"
+}
+
 func (c *C10Case) Run() (res stat.Result) {
 	res.Sub = 2
 	res.Classes = append(res.Classes, "env:"+strings.Join(c10Envs[c.Env], ","))
+	if c.Arrays != 0 {
+		res.Classes = append(res.Classes, "fresh-pointer-arrays")
+	}
 	for _, a := range c.Plan {
 		res.Classes = append(res.Classes, "action:"+a)
 	}
